@@ -197,7 +197,17 @@ class CallRecorder:
         default_retries = inspect.signature(orig_get).parameters["retry_count"].default
 
         async def get(create_func, destination=None, retry_count=None):
-            c = rec._begin("get", retry_count if retry_count is not None else default_retries)
+            if retry_count is not None:
+                configured = retry_count
+            elif rec.world.cfg.get("tables") is None and "tables" in rec.world.cfg:
+                # shipped timing tables in force: the configured retry count is what the live configuration says now
+                from geckolib.config import GeckoConfig as _GC
+
+                configured = int(_GC.PROTOCOL_RETRY_COUNT)
+                rec.world.result.probe("retry_count_read_from_the_table_in_force")
+            else:
+                configured = default_retries
+            c = rec._begin("get", configured)
             built: List[Any] = []
 
             def create():
